@@ -521,7 +521,17 @@ func adapter(raw json.RawMessage, env *rt.Env) rt.Result {
 	}
 	flush := func() error {
 		for id, e := range engines {
-			if err := e.WriteSnapshot(); err != nil {
+			// tsdb.Store's monitor goroutine periodically disables compactions (and with them snapshots) of idle
+			// shards, so snapshots are re-enabled right before each flush and the flush is retried
+			var err error
+			for try := 0; try < 20; try++ {
+				e.Compactor.EnableSnapshots()
+				if err = e.WriteSnapshot(); err == nil || !strings.Contains(err.Error(), "disabled") {
+					break
+				}
+				time.Sleep(10 * time.Millisecond)
+			}
+			if err != nil {
 				return fmt.Errorf("snapshot shard %d: %v", id, err)
 			}
 		}
